@@ -110,7 +110,9 @@ Inductive mstep :=
 | MStoreOne (sel : Z) (mode : smode) (new : list str) (u : Z)  (* UPDATE flags, or the move transaction *)
 | MDelLink (id : Z)                             (* DELETE FROM message_mailbox WHERE id = ? *)
 | MTxDelete (mb : Z)                            (* BEGIN; DELETE message_mailbox; DELETE mailboxes; COMMIT *)
-| MTxRename (mb : Z) (old new : str)            (* BEGIN; UPDATE mailboxes SET name *; COMMIT *)
+| MTxRename (mb : Z) (old new : str) (ps : list str) (t : Z)
+                                                (* BEGIN; INSERT INTO mailboxes (missing parents [ps]) *; UPDATE mailboxes SET name *; COMMIT
+                                                   - ONE transaction since raven 0c3ee23 *)
 | MTxReparent (old new nx : Z)                  (* BEGIN; UPDATE mailboxes SET uid_next; UPDATE message_mailbox SET mailbox_id; COMMIT *)
 | MSubscribe (name : str)                       (* INSERT OR IGNORE INTO subscriptions *)
 | MUnsubscribe (name : str).                    (* DELETE FROM subscriptions *)
@@ -129,6 +131,31 @@ Definition default_rows (s : store) (t1 t2 t3 t4 t5 : Z) : store :=
   fold_left (fun s' nt => match create_mailbox_row s' (fst nt) (snd nt) with
                           | Some (s'', _) => s'' | None => s' end)
             [(INBOX, t1); (S_ "Sent", t2); (S_ "Drafts", t3); (S_ "Trash", t4); (SPAM, t5)] s.
+
+(** the missing parents of CREATE / RENAME, created one by one *)
+Definition after_parents (s : store) (ps : list str) (t : Z) : store :=
+  fold_left (fun s' p => match find_name s' p with
+                         | Some _ => s'
+                         | None => match create_mailbox_row s' p t with
+                                   | Some (s'', _) => s'' | None => s' end
+                         end) ps s.
+
+(** the transaction of RenameMailboxPerUser (raven 0c3ee23, 9ad3652): missing
+    parents [ps] of the new name are created INSIDE the transaction, the
+    hierarchical children are collected BEFORE the mailbox itself is renamed,
+    then the row and its children are renamed; [None] = a statement failed and
+    the whole transaction (parents included) is rolled back *)
+Definition rename_tx7 (s : store) (mb : Z) (old new : str) (ps : list str) (t : Z) : option store :=
+  let s1 := after_parents s ps t in
+  let cs := children s1 old in
+  match rename_row s1 mb new with
+  | None => None
+  | Some s2 =>
+    fold_left (fun acc c => match acc with
+                            | None => None
+                            | Some s' => rename_row s' (mb_id c) (new ++ skipn (length old) (mb_name c))
+                            end) cs (Some s2)
+  end.
 
 (** a statement that fails (constraint, missing table) changes nothing *)
 Definition exec (d : dstore) (st : mstep) : dstore :=
@@ -164,7 +191,8 @@ Definition exec (d : dstore) (st : mstep) : dstore :=
   | MTxDelete mb =>
       let s1 := delete_links (d_st d) (in_mbox mb) in
       with_st d (set_mboxes s1 (filter (fun m' => negb (mb_id m' =? mb)) (mboxes s1)))
-  | MTxRename mb old new => opt_st d (rename_tx (d_st d) mb old new)
+  | MTxRename mb old new ps t =>
+      if d_file d && (1 <=? d_schema d)%nat then opt_st d (rename_tx7 (d_st d) mb old new ps t) else d
   | MTxReparent old new nx => opt_st d (reparent (set_next (d_st d) new nx) old new)
   | MSubscribe n =>
       if existsb (str_eqb n) (d_subs d) then d
@@ -257,12 +285,12 @@ Fixpoint parent_steps (s : store) (ps : list str) (t : Z) : list mstep :=
               end
     end
   end.
-Definition after_parents (s : store) (ps : list str) (t : Z) : store :=
-  fold_left (fun s' p => match find_name s' p with
-                         | Some _ => s'
-                         | None => match create_mailbox_row s' p t with
-                                   | Some (s'', _) => s'' | None => s' end
-                         end) ps s.
+(** createParentMailboxesPerUser / the parent loop of HandleCreate: the paths
+    above [name], without the empty path (a name that starts with "/") and
+    without case variants of INBOX (raven 3de38ea, 59c8bd8) *)
+Definition skip_parent (p : str) : bool := match p with [] => true | _ => equal_fold p INBOX end.
+Definition parents_of (name : str) : list str :=
+  filter (fun p => negb (skip_parent p)) (if contains_byte name SLASH then parent_paths name else []).
 
 (** EXPUNGE: "SELECT id, uid ... instr(' '||flags||' ', ' \Deleted ') ORDER BY uid", then one DELETE per row id *)
 Definition expunge_ids (s : store) (sel : Z) : list Z :=
@@ -298,7 +326,7 @@ Definition base_steps (s : store) (o : op) : list mstep :=
         match find_name s name with
         | Some _ => []
         | None =>
-          let ps := if contains_byte name SLASH then parent_paths name else [] in
+          let ps := parents_of name in
           parent_steps s ps t ++
           (match create_mailbox_row (after_parents s ps t) name t with
            | Some _ => [MInsMailbox name t] | None => [] end)
@@ -331,7 +359,9 @@ Definition base_steps (s : store) (o : op) : list mstep :=
             match find_name s INBOX with
             | None => []
             | Some ib =>
-              match create_mailbox_row s new t with
+              let ps := parents_of new in
+              parent_steps s ps t ++
+              match create_mailbox_row (after_parents s ps t) new t with
               | None => []
               | Some (_, nid) => [MInsMailbox new t; MTxReparent (mb_id ib) nid (mb_next ib)]
               end
@@ -344,8 +374,7 @@ Definition base_steps (s : store) (o : op) : list mstep :=
           match find_name s new with
           | Some _ => []
           | None =>
-            let ps := if contains_byte new SLASH then parent_paths new else [] in
-            parent_steps s ps t ++ [MTxRename (mb_id m) old new]
+            [MTxRename (mb_id m) old new (parents_of new) t]
           end
         end
       end
@@ -380,6 +409,72 @@ Definition opened (d : dstore) (t1 t2 t3 t4 t5 : Z) : dstore :=
 Definition base_ok (o : op) : bool :=
   match o with ODeliver _ _ | OAppend _ _ => false | _ => true end.
 
+(** CREATE and RENAME as the code is NOW (raven 0c3ee23, 3de38ea, 9ad3652,
+    0a9be9c, 59c8bd8); Model/Ops.v's [op_create] / [op_rename] (shared, owner
+    C03) still describe the code before these commits *)
+Definition op_create7 (s : store) (name0 : str) (t : Z) : store * result :=
+  let name := trim_suffix name0 [SLASH] in
+  match name with
+  | [] => (s, RNo)
+  | _ =>
+    if str_eqb (to_upper name) INBOX then (s, RNo) else
+    match find_name s name with
+    | Some _ => (s, RNo)
+    | None =>
+      let s1 := after_parents s (parents_of name) t in
+      match create_mailbox_row s1 name t with
+      | Some (s2, _) => (s2, ROk)
+      | None => (s1, RNo)
+      end
+    end
+  end.
+
+Definition rename_inbox7 (s : store) (new : str) (t : Z) : store * result :=
+  match find_name s new with
+  | Some _ => (s, RNo)
+  | None =>
+    match find_name s INBOX with
+    | None => (s, RNo)
+    | Some ib =>
+      let s0 := after_parents s (parents_of new) t in        (* autocommit, one by one *)
+      match create_mailbox_row s0 new t with
+      | None => (s0, RNo)
+      | Some (s1, nid) =>
+        match reparent (set_next s1 nid (mb_next ib)) (mb_id ib) nid with
+        | Some s2 => (s2, ROk)
+        | None => (s1, RNo)
+        end
+      end
+    end
+  end.
+
+Definition op_rename7 (s : store) (old new : str) (t : Z) : store * result :=
+  match old, new with
+  | [], _ | _, [] => (s, RBad)
+  | _, _ =>
+    if str_eqb (to_upper new) INBOX then (s, RNo) else
+    if str_eqb (to_upper old) INBOX then rename_inbox7 s new t else
+    match find_name s old with
+    | None => (s, RNo)
+    | Some m =>
+      match find_name s new with
+      | Some _ => (s, RNo)
+      | None =>
+        match rename_tx7 s (mb_id m) old new (parents_of new) t with
+        | Some s2 => (s2, ROk)
+        | None => (s, RNo)          (* rollback: the parents are gone too *)
+        end
+      end
+    end
+  end.
+
+Definition step7 (s : store) (o : op) : store * result :=
+  match o with
+  | OCreate n t => op_create7 s n t
+  | ORename a b t => op_rename7 s a b t
+  | _ => step s o
+  end.
+
 (** result + state: the message-storing operations add one complete [messages]
     row whenever Model/Ops.v's [store_message] ran *)
 Definition big (d : dstore) (o : cop) : dstore * result :=
@@ -403,7 +498,7 @@ Definition big (d : dstore) (o : cop) : dstore * result :=
              (d_subs d) (d_deliv d), r)
       else (d, RNo)
   | CBase o' =>
-      if ready d && base_ok o' then let '(s', r) := step (d_st d) o' in (with_st d s', r) else (d, RNo)
+      if ready d && base_ok o' then let '(s', r) := step7 (d_st d) o' in (with_st d s', r) else (d, RNo)
   | CSubscribe n => if ready d then (exec d (MSubscribe n), ROk) else (d, RNo)
   | CUnsubscribe n =>
       if ready d then (exec d (MUnsubscribe n), if existsb (str_eqb n) (d_subs d) then ROk else RNo)
@@ -481,6 +576,20 @@ Fixpoint copy_labels (s : store) (sel dest : Z) (seqs : list Z) (next : Z) : lis
     end
   end.
 
+(** one "I mailboxes" per parent that is actually created *)
+Fixpoint run_create_labels (s : store) (ps : list str) (t : Z) : list str :=
+  match ps with
+  | [] => []
+  | p :: r =>
+    match find_name s p with
+    | Some _ => run_create_labels s r t
+    | None => match create_mailbox_row s p t with
+              | Some (s', _) => S_ "I mailboxes" :: run_create_labels s' r t
+              | None => run_create_labels s r t
+              end
+    end
+  end.
+
 Definition tx_end (ok : bool) : list str := [if ok then L_COMMIT else L_ROLLBACK].
 Definition is_some {A} (o : option A) : bool := match o with Some _ => true | None => false end.
 
@@ -527,13 +636,14 @@ Definition labels (d : dstore) (st : mstep) : list str :=
       end
   | MDelLink _ => [S_ "D message_mailbox"]
   | MTxDelete _ => [L_BEGIN; S_ "D message_mailbox"; S_ "D mailboxes"; L_COMMIT]
-  | MTxRename mb old new =>
-      match rename_row s mb new with
-      | None => [L_BEGIN; S_ "U mailboxes"; L_ROLLBACK]
-      | Some s1 =>
-          L_BEGIN :: S_ "U mailboxes" :: repeat (S_ "U mailboxes") (length (children s1 old))
-          ++ tx_end (is_some (rename_tx s mb old new))
-      end
+  | MTxRename mb old new ps t =>
+      let s1 := after_parents s ps t in
+      L_BEGIN :: run_create_labels s ps t
+      ++ match rename_row s1 mb new with
+         | None => [S_ "U mailboxes"; L_ROLLBACK]
+         | Some _ => S_ "U mailboxes" :: repeat (S_ "U mailboxes") (length (children s1 old))
+                     ++ tx_end (is_some (rename_tx7 s mb old new ps t))
+         end
   | MTxReparent old new nx =>
       [L_BEGIN; S_ "U mailboxes"; S_ "U message_mailbox"] ++ tx_end (is_some (reparent (set_next s new nx) old new))
   | MSubscribe _ => [S_ "I subscriptions"]
